@@ -701,3 +701,156 @@ def roundtrip(cls_short):
 def _noaddr(res):
     import re
     return {k: re.sub(r" at 0x[0-9a-f]+", "", repr(v)) for k, v in res.items()}
+
+
+def _expect(cases):
+    for label, thunk, exc in cases:
+        try:
+            thunk()
+            got = None
+        except Exception as e:
+            got = type(e).__name__
+        if got != exc:
+            return f"{label}: expected {exc or 'no exception'}, got {got or 'no exception'}"
+    return None
+
+
+def guards(fshort):
+    """C14: both directions of the exceptional postcondition of one guarded function, on concrete programs"""
+    from . import Q, Table, Case, an, PostgreSQLQuery, pk
+    from pypika_tortoise.terms import EmptyCriterion
+    Query = pk.Query
+    t, u = Table("t"), Table("u")
+    c = t.a == 1
+    ins = lambda: Query.into(t).insert(1)
+    sel = lambda: Query.from_(t).select(t.a)
+    win = lambda: an.Sum(t.a).over(t.b)
+    S = {
+        "terms.Case.get_sql": [("CASE without WHEN", lambda: str(Case()), "CaseException"),
+                               ("CASE with WHEN", lambda: str(Case().when(c, 2)), None)],
+        "queries.QueryBuilder.on_conflict": [("on_conflict on SELECT", lambda: sel().on_conflict("id"), "QueryException"),
+                                             ("on_conflict on INSERT", lambda: ins().on_conflict("id"), None)],
+        "queries.QueryBuilder.do_update": [
+            ("do_update after do_nothing", lambda: ins().on_conflict("id").do_nothing().do_update("a", 1), "QueryException"),
+            ("do_update(5)", lambda: ins().on_conflict("id").do_update(5, 1), "QueryException"),
+            ("do_update", lambda: ins().on_conflict("id").do_update("a", 1), None),
+            ("do_update(Field)", lambda: ins().on_conflict("id").do_update(t.a, 1), None)],
+        "queries.QueryBuilder.do_nothing": [
+            ("do_nothing after do_update", lambda: ins().on_conflict("id").do_update("a", 1).do_nothing(), "QueryException"),
+            ("do_nothing", lambda: ins().on_conflict("id").do_nothing(), None)],
+        "queries.QueryBuilder.where": [
+            ("where after do_nothing", lambda: ins().on_conflict("id").do_nothing().where(c), "QueryException"),
+            ("where after fieldless on_conflict", lambda: ins().on_conflict().where(c), "QueryException"),
+            ("where after on_conflict(id)", lambda: ins().on_conflict("id").where(c), None),
+            ("where after do_update", lambda: ins().on_conflict("id").do_update("a", 1).where(c), None),
+            ("empty criterion after do_nothing", lambda: ins().on_conflict("id").do_nothing().where(EmptyCriterion()), None),
+            ("where on select", lambda: sel().where(c), None)],
+        "queries.QueryBuilder._on_conflict_sql": [
+            ("on_conflict(id) without handler", lambda: str(ins().on_conflict("id")), "QueryException"),
+            ("fieldless do_update", lambda: str(ins().on_conflict().do_update("a", 1)), "QueryException"),
+            ("do_nothing", lambda: str(ins().on_conflict("id").do_nothing()), None),
+            ("fieldless do_nothing", lambda: str(ins().on_conflict().do_nothing()), None),
+            ("no conflict clause", lambda: str(ins()), None)],
+        "queries.QueryBuilder.into": [("into twice", lambda: Query.into(t).into(u), "AttributeError"),
+                                      ("into", lambda: Query.into(t), None), ("select into", lambda: sel().into(u), None)],
+        "queries.QueryBuilder.update": [("update twice", lambda: Query.update(t).update(u), "AttributeError"),
+                                        ("update after select", lambda: sel().update(t), "AttributeError"),
+                                        ("update after delete", lambda: Query.from_(t).delete().update(t), "AttributeError"),
+                                        ("update", lambda: Query.update(t), None)],
+        "queries.QueryBuilder.delete": [("delete twice", lambda: Query.from_(t).delete().delete(), "AttributeError"),
+                                        ("delete after select", lambda: sel().delete(), "AttributeError"),
+                                        ("delete after update", lambda: Query.update(t).delete(), "AttributeError"),
+                                        ("delete", lambda: Query.from_(t).delete(), None)],
+        "queries.QueryBuilder.columns": [("columns without into", lambda: sel().columns("a"), "AttributeError"),
+                                         ("columns", lambda: Query.into(t).columns("a"), None)],
+        "queries.QueryBuilder.insert": [("insert without into", lambda: sel().insert(1), "AttributeError"),
+                                        ("insert", lambda: Query.into(t).insert(1), None)],
+        "queries.QueryBuilder.replace": [("replace without into", lambda: sel().replace(1), "AttributeError"),
+                                         ("replace", lambda: Query.into(t).replace(1), None)],
+        "queries.QueryBuilder.rollup": [
+            ("mysql rollup without groups", lambda: sel().rollup(vendor="mysql"), "RollupException"),
+            ("mysql rollup twice", lambda: sel().groupby(t.a).rollup(vendor="mysql").rollup(vendor="mysql"), "AttributeError"),
+            ("rollup after mysql rollup", lambda: sel().groupby(t.a).rollup(vendor="mysql").rollup(t.b), "AttributeError"),
+            ("mysql rollup with groupby", lambda: sel().groupby(t.a).rollup(vendor="mysql"), None),
+            ("mysql rollup with terms", lambda: sel().rollup(t.a, vendor="mysql"), None),
+            ("rollup", lambda: sel().rollup(t.a), None), ("empty rollup", lambda: sel().rollup(), None)],
+        "queries.Table.for_": [("for_ twice", lambda: t.for_(c).for_(c), "AttributeError"),
+                               ("for_ after for_portion", lambda: t.for_portion(t.p.from_to(1, 2)).for_(c), "AttributeError"),
+                               ("for_", lambda: t.for_(c), None)],
+        "queries.Table.for_portion": [("for_portion twice", lambda: t.for_portion(t.p.from_to(1, 2)).for_portion(t.p.from_to(1, 2)), "AttributeError"),
+                                      ("for_portion after for_", lambda: t.for_(c).for_portion(t.p.from_to(1, 2)), "AttributeError"),
+                                      ("for_portion", lambda: t.for_portion(t.p.from_to(1, 2)), None)],
+        "queries.CreateQueryBuilder.create_table": [("create_table twice", lambda: Query.create_table("a").create_table("b"), "AttributeError"),
+                                                    ("create_table", lambda: Query.create_table("a"), None)],
+        "queries.CreateQueryBuilder.columns": [("columns after as_select", lambda: Query.create_table("a").as_select(sel()).columns(Q.Column("x", "INT")), "AttributeError"),
+                                               ("columns", lambda: Query.create_table("a").columns(Q.Column("x", "INT")), None)],
+        "queries.CreateQueryBuilder.primary_key": [("primary_key twice", lambda: Query.create_table("a").primary_key("x").primary_key("y"), "AttributeError"),
+                                                   ("primary_key", lambda: Query.create_table("a").primary_key("x"), None)],
+        "queries.CreateQueryBuilder.as_select": [("as_select after columns", lambda: Query.create_table("a").columns(Q.Column("x", "INT")).as_select(sel()), "AttributeError"),
+                                                 ("as_select(str)", lambda: Query.create_table("a").as_select("x"), "TypeError"),
+                                                 ("as_select", lambda: Query.create_table("a").as_select(sel()), None)],
+        "queries.DropQueryBuilder.drop_table": [("drop_table twice", lambda: Query.drop_table("a").drop_table("b"), "AttributeError"),
+                                                ("drop_table", lambda: Query.drop_table("a"), None)],
+        "terms.WindowFrameAnalyticFunction.rows": [("rows twice", lambda: win().rows(an.Preceding(1)).rows(an.Preceding(2)), "AttributeError"),
+                                                   ("rows after range", lambda: win().range(an.Preceding(1)).rows(an.Preceding(2)), "AttributeError"),
+                                                   ("rows", lambda: win().rows(an.Preceding(1)), None)],
+        "terms.WindowFrameAnalyticFunction.range": [("range twice", lambda: win().range(an.Preceding(1)).range(an.Preceding(2)), "AttributeError"),
+                                                    ("range", lambda: win().range(an.Preceding(1)), None)],
+        "queries.Joiner.on": [("on(None)", lambda: sel().join(u).on(None), "JoinException"),
+                              ("on", lambda: sel().join(u).on(t.a == u.a), None)],
+        "queries.Joiner.on_field": [("on_field()", lambda: sel().join(u).on_field(), "JoinException"),
+                                    ("on_field", lambda: sel().join(u).on_field("a"), None)],
+        "queries.Joiner.using": [("using()", lambda: sel().join(u).using(), "JoinException"),
+                                 ("using", lambda: sel().join(u).using("a"), None)],
+        "dialects.postgresql.PostgreSQLQueryBuilder._return_field_str": [
+            ("returning(str) on SELECT", lambda: PostgreSQLQuery.from_(t).select(t.a).returning("id"), "QueryException"),
+            ("returning(*) on SELECT", lambda: PostgreSQLQuery.from_(t).select(t.a).returning("*"), "QueryException"),
+            ("returning(1) on SELECT", lambda: PostgreSQLQuery.from_(t).select(t.a).returning(1), "QueryException"),
+            ("returning on INSERT", lambda: PostgreSQLQuery.into(t).insert(1).returning("id"), None),
+            ("returning on UPDATE", lambda: PostgreSQLQuery.update(t).set("a", 1).returning("id", "*"), None),
+            ("returning on DELETE", lambda: PostgreSQLQuery.from_(t).delete().returning("id"), None)],
+    }
+    if fshort not in S:
+        return None
+    return _expect(S[fshort])
+
+
+def join_validation():
+    """C14: a join criterion over unavailable tables is rejected, one over available sources never is"""
+    from . import Q, Table, pk, fn
+    Query = pk.Query
+    t, u, v = Table("t"), Table("u"), Table("v")
+    ta = Table("t", alias="x")
+    st = Table("t", schema="s")
+    sub = Query.from_(v).select(v.a).as_("sq")
+    cte = Q.AliasedQuery("c1")
+    cases = [
+        ("foreign table in ON", lambda: Query.from_(t).join(u).on(t.a == v.a), "JoinException"),
+        ("foreign table on the left", lambda: Query.from_(t).join(u).on(v.a == t.a), "JoinException"),
+        ("foreign table inside a function", lambda: Query.from_(t).join(u).on(fn.Lower(v.a) == u.a), "JoinException"),
+        ("same name other schema", lambda: Query.from_(t).join(u).on(st.a == u.a), "JoinException"),
+        ("from and joined", lambda: Query.from_(t).join(u).on(t.a == u.a), None),
+        ("aliased", lambda: Query.from_(ta).join(u).on(ta.a == u.a), None),
+        ("schema", lambda: Query.from_(st).join(u).on(st.a == u.a), None),
+        ("subquery", lambda: Query.from_(t).join(sub).on(t.a == sub.a), None),
+        ("earlier join", lambda: Query.from_(t).join(u).on(t.a == u.a).join(v).on(u.b == v.b), None),
+        ("declared cte", lambda: Query.with_(Query.from_(v).select(v.a), "c1").from_(t).join(u).on(u.a == cte.a), None),
+        ("cte in from", lambda: Query.with_(Query.from_(v).select(v.a), "c1").from_(cte).join(u).on(u.a == cte.a), None),
+        ("update join", lambda: Query.update(t).join(u).on(t.a == u.a), None),
+        ("function operands", lambda: Query.from_(t).join(u).on(fn.Lower(t.a) == fn.Upper(u.a)), None),
+    ]
+    return _expect(cases)
+
+
+def setop_arity():
+    """C14: set operations over select lists of different lengths raise at render, equal lengths never do"""
+    from . import Table, pk
+    Query = pk.Query
+    t, u = Table("t"), Table("u")
+    q1, q2, q3 = Query.from_(t).select(t.a), Query.from_(u).select(u.a, u.b), Query.from_(u).select(u.c)
+    cases = [("union 1 vs 2", lambda: str(q1.union(q2)), "SetOperationException"),
+             ("union 1,1,2", lambda: str(q1.union(q3).union_all(q2)), "SetOperationException"),
+             ("intersect 2 vs 1", lambda: str(q2.intersect(q1)), "SetOperationException"),
+             ("union 1 vs 1", lambda: str(q1.union(q3)), None),
+             ("minus 1,1,1", lambda: str(q1.minus(q3).except_of(q1)), None)]
+    return _expect(cases)
